@@ -142,8 +142,8 @@ class Ctx:
             elif z3.is_bv_value(a) and not z3.is_bv_value(b):
                 self._bind(b, a.as_long())
 
-    def decide(self, cond) -> bool:
-        """Fork on a z3 Bool; returns the side taken on the current path."""
+    def decide(self, cond, prefer=None) -> bool:
+        """Fork on a z3 Bool; returns the side taken on the current path (`prefer`: side to explore first)."""
         if self.bindings:
             cond = z3.substitute(cond, *self.bindings)
         cond = z3.simplify(cond)
@@ -167,7 +167,13 @@ class Ctx:
                     raise PathAbort('infeasible')
                 self.model = self.solver.model()
             mv = self.model.eval(cond, model_completion=True)
-            if z3.is_true(mv):
+            if prefer is not None and z3.is_true(mv) != prefer:
+                if self._check(cond if prefer else z3.Not(cond)):
+                    other, choice = True, prefer      # the model's side is known to be feasible
+                    self.model = None
+                else:
+                    other, choice = False, not prefer
+            elif z3.is_true(mv):
                 other = self._check(z3.Not(cond))
                 choice = True
             else:
